@@ -169,13 +169,27 @@ def run_check(spec, tier, seed):
     view = spec.view or (lambda case, lines: lines)
     mismatches = []
     bad_ops = 0
+    pred_evals = 0
     for c, m, im in zip(cases, model, impl):
         if any(l == "bad-op" for l in m):
             bad_ops += 1
         if im is None:
             continue
-        if view(c, m) != view(c, im):
+        differs = view(c, m) != view(c, im)
+        pfail = False
+        if spec.predicate:
+            # the property predicate is evaluated on the implementation's own output for every case
+            try:
+                pv = spec.predicate(c, im, m, ctx)
+            except Exception:  # noqa
+                pv = None
+            if pv is not None:
+                pred_evals += 1
+            pfail = pv is False
+        if differs or pfail:
             mismatches.append((c, m, im))
+    cov["predicate_evaluations_on_implementation_output"] = pred_evals
+    # failing predicates first
     if bad_ops:
         raise SystemExit("generator produced %d cases the model driver rejects (bad-op)" % bad_ops)
 
@@ -199,10 +213,10 @@ def run_check(spec, tier, seed):
         def still(ops, c=c):
             mm, ii = run_pair(ops)
             cc = Case("s", ops, meta=c.meta)
-            if view(cc, mm) == view(cc, ii):
-                return False
             if any(l.startswith("CRASH:") for l in ii):
                 return True
+            if view(cc, mm) == view(cc, ii) and not (spec.predicate and failing):
+                return False
             if spec.predicate and failing and not crashed:
                 try:
                     return spec.predicate(cc, ii, mm, ctx) is False
